@@ -13,7 +13,9 @@ import vlib
 from props import ingest_common as ic
 
 PROP = "C02"
-CLAUSES = {"identity-not-functional", "identity-not-injective", "recommit-same", "recommit-changed", "cli-error"}
+# the command-line commits are driven by this check only: whatever fails in them (also plain losslessness) is reported here
+CLAUSES = {"identity-not-functional", "identity-not-injective", "recommit-same", "recommit-changed", "cli-error",
+           "error@cli", "lossless@cli", "oversize-not-refused@cli"}
 
 
 def run(tier, seed):
